@@ -183,12 +183,15 @@ func (cl *haCluster) onCommit(inc *haInc, b bookkeeping.Block, c Certificate, ho
 	}
 	// C03 on a pristine view (canonical chain below r)
 	m.checkCert(cl, ev, b, c)
-	// extend the canonical chain / pristine view
-	if !seen {
-		m.mu.Lock()
+	// extend the canonical chain / pristine view (the first event for a round may have been digest-only)
+	m.mu.Lock()
+	_, have := m.chainBlk[r]
+	if !have && (!seen || first == d) {
 		m.chainBlk[r] = b
 		m.chainCert[r] = c
-		m.mu.Unlock()
+	}
+	m.mu.Unlock()
+	if !have && (!seen || first == d) {
 		m.ref.add(b, c)
 	}
 }
